@@ -46,7 +46,7 @@ def strategy(draw, tier="quick"):
     case = {"mode": mode, "nf": draw(st.integers(1, 2)), "seed": draw(st.integers(0, 2 ** 31)),
             "rot": draw(st.integers(0, 23)), "tpow": draw(st.sampled_from([0, 0, 3, 6, 9])),
             "tmag": draw(st.sampled_from([0.0, 1.0, 60.0, 500.0])),
-            "shift": draw(st.sampled_from(["atoms", "atoms", "system", "both"]))}
+            "shift": draw(st.sampled_from(["atoms", "atoms", "system", "both", "one-atom", "half"]))}
     return case
 
 
@@ -121,6 +121,12 @@ def run_case(case):
             y = x.copy() + 3.0
             x = x + 3.0
             for f in range(case["nf"]):
+                if case["shift"] == "one-atom":      # a single atom leaves through the boundary, everything else stays
+                    k = int(rng.integers(0, y.shape[1]))
+                    y[f, k] = y[f, k] + rng.integers(-3, 4, 3) @ Hs[f]
+                if case["shift"] == "half":
+                    moved = rng.random(y.shape[1]) < 0.5
+                    y[f, moved] = y[f, moved] + rng.integers(-3, 4, (int(moved.sum()), 3)) @ Hs[f]
                 if case["shift"] in ("atoms", "both"):
                     y[f] = y[f] + rng.integers(-3, 4, (y.shape[1], 3)) @ Hs[f]
                 if case["shift"] in ("system", "both"):
